@@ -1161,6 +1161,38 @@ func singles(full bool) {
 	}
 }
 
+// intbufBoundary: integer verbs whose digit count (from the precision, or from the width under the 0 flag) lies
+// around the size of the formatter's fixed scratch buffer (68 bytes), with every sign / prefix combination — the
+// place where "is the fixed buffer large enough" is decided (C17-m6/m7/m8: sized from the precision only;
+// C17-m9: compared without the three bytes for sign and prefix: panics only for 66..68 digits plus sign/prefix).
+func intbufBoundary(full bool) {
+	lo, hi := 62, 72
+	if full {
+		lo, hi = 56, 80
+	}
+	vals := []int64{5, -5, 0, math.MaxInt64, math.MinInt64}
+	for _, v := range []byte("dxXoOb") {
+		for _, fs := range []string{"", "+", "#", "+#", " ", " #", "0", "+0", "#0", "+#0", "-", "-+#"} {
+			for n := lo; n <= hi; n++ {
+				for _, shape := range []string{fmt.Sprintf(".%d", n), fmt.Sprintf("%d", n), fmt.Sprintf("%d.%d", n+2, n), ".*", "*"} {
+					if strings.ContainsAny(shape, ".") && strings.Contains(fs, "0") && shape[0] != '.' {
+						continue
+					}
+					f := "[%" + fs + shape + string(v) + "]"
+					for _, x := range vals {
+						var args []arg
+						if strings.Contains(shape, "*") {
+							args = append(args, arg{K: 'i', I: int64(n)})
+						}
+						args = append(args, arg{K: 'i', I: x})
+						checkCase(f, args, defLimit, caseOpts{stream: "intbuf"})
+					}
+				}
+			}
+		}
+	}
+}
+
 // ---- exhaustive cross-type directives: every documented verb on every operand type it is not documented for ----
 
 var crossArgs = []arg{
@@ -1415,6 +1447,7 @@ func main() {
 	singles(f.Thorough())
 	crossRNG = rng.Fork()
 	cross(f.Thorough())
+	intbufBoundary(f.Thorough())
 	res.Exhaustive = true
 	res.Extra = map[string]interface{}{"single_directives": map[bool]string{true: "20 verbs x 32 flag subsets x 6 widths x 6 precisions x 21 arguments", false: "20 verbs x 32 flag subsets x 3 widths x 4 precisions x up to 9 arguments of a documented type"}[f.Thorough()],
 		"cross_type_directives": map[bool]string{true: "17 documented verbs x every one of 16 arguments of a type the verb is not documented for x 32 flag subsets x 6 widths x 5 precisions", false: "17 documented verbs x every one of 16 arguments of a type the verb is not documented for x 8 flag sets x 3 widths x 3 precisions"}[f.Thorough()]}
